@@ -10,7 +10,7 @@ from pgverif.monitors import tree as TM
 
 TIERS = {
     'quick': dict(shards=8, cases=110, steps=40),
-    'thorough': dict(shards=16, cases=1500, steps=80),
+    'thorough': dict(shards=16, cases=1000, steps=80),
 }
 RULE = ('case = one history of mutating/copying API calls from the full '
         'List/Dict/Object operation table plus constructor calls (pg.Dict / '
